@@ -24,6 +24,21 @@ claim("C01", "HIR argument-provenance (origin) analysis + MIR success-edge domin
       "dispatch tables; no caller drops the verification result. Necessary structural conditions of the binding, not an execution of signatures.",
       "that the crypto libraries reject every mutated message/signature; base64 decoder strictness.", "DESIGN.md §7 C01")
 
+claim("C02", "HIR structural dominance (tried-call / guard inventory) + argument provenance + MIR success-edge dominance + decision tables + comparison-role normalisation",
+      "Decides on every path: validate = verify_signature ✓ then validate_decoded_credential on the verified token; verify_signature_with_verifier's Ok is dominated by decode, parse_jwk, "
+      "verify_decoded_signature (→ JwsValidationItem::verify, C01) and extract_issuer successes and by issuer == method_id.did(); parse_jwk's full nonce equality dominates, the method id is the "
+      "configured one or DIDUrl::parse(protected kid), the issuer document is selected by DID equality and the key resolved in options.method_scope; the five validation units call the five checks "
+      "with the configured bounds and all flow into the error collector, fail-fast table, Ok iff no error, returned token is the validated one; the unit predicates' comparison roles "
+      "(expiry ≥ bound or absent, issuance ≤ bound), subject-holder and status tables, bitmap membership test and Credential::check_structure guards.",
+      "truth of the conjunction on concrete inputs is implied only together with C01/C06/C13 and not separately executed; DID parser acceptance (C10).", "DESIGN.md §7 C02")
+claim("C07", "HIR field-flow coverage against struct definitions + abstract Option/bool evaluation of the consistency guards + serde attribute wiring",
+      "Decides for all credentials/presentations/claims sets: both `new` constructors destructure exhaustively (no `..`) and carry every field of Credential/Presentation (taken from the ADT) "
+      "into exactly the registered claim or the same-named vc/vp member, duplicated members None; both try_into_* rebuild every field from the matching claim and discard only the duplicated members; "
+      "check_consistency ✓ dominates reconstruction, compares exactly the discarded members, and — by abstract evaluation of its guards under presence assumptions — rejects a present vc/vp member whose "
+      "optional registered claim is absent while accepting claims without duplicates; every i64→Timestamp conversion goes through from_unix with the error propagated (nbf preferred, iat fallback, "
+      "both absent an error); every skip_serializing_if field is Option or defaulted.",
+      "JSON-level equality of arbitrary properties/custom maps (serde flatten collisions); serde round trip of the individual field types.", "DESIGN.md §7 C07")
+
 for _p, _r in {
     "C01": "rules not yet implemented in this revision (planned, DESIGN §7)", "C02": "rules not yet implemented in this revision",
     "C03": "rules not yet implemented in this revision", "C04": "rules not yet implemented in this revision",
